@@ -296,7 +296,8 @@ class Repo:
 
         def candidate(h: FunctionInfo) -> bool:
             if h.qualname in base or "<locals>" in h.qualname or h.parent is not None \
-                    or not isinstance(h.node, ast.FunctionDef) or uses.get(h.name, 0) != 1:
+                    or not isinstance(h.node, ast.FunctionDef) \
+                    or not 1 <= uses.get(h.name, 0) <= 8:
                 return False
             decs = h.decorators()
             if any(d not in ("staticmethod",) for d in decs):
@@ -385,12 +386,112 @@ class Repo:
                 ast.fix_missing_locations(st)
             return out, result
 
+        pasted: dict[str, int] = {}
+
+        def gen_candidate(h: FunctionInfo):
+            """a new generator helper of the shape  PRE...; for X in IT: S...; yield E
+            -> (pre statements, the for loop, the yield statement) or None"""
+            if h.qualname in base or "<locals>" in h.qualname or h.parent is not None \
+                    or not isinstance(h.node, ast.FunctionDef) \
+                    or not 1 <= uses.get(h.name, 0) <= 8:
+                return None
+            if any(d not in ("staticmethod",) for d in h.decorators()):
+                return None
+            a = h.node.args
+            if a.vararg or a.kwarg or a.kwonlyargs or a.posonlyargs or a.defaults:
+                return None
+            body = _body_without_doc(h.node)
+            if not body or not isinstance(body[-1], ast.For) or body[-1].orelse:
+                return None
+            loop = body[-1]
+            ys = [x for st in body for x in ast.walk(st) if isinstance(x, (ast.Yield, ast.YieldFrom))]
+            last = loop.body[-1] if loop.body else None
+            if len(ys) != 1 or not (isinstance(last, ast.Expr) and last.value is ys[0]
+                                    and isinstance(ys[0], ast.Yield) and ys[0].value is not None):
+                return None
+            for st in body:
+                for x in ast.walk(st):
+                    if isinstance(x, (ast.Return, ast.FunctionDef, ast.Lambda, ast.ClassDef,
+                                      ast.Global, ast.Nonlocal, ast.Break, ast.Continue)):
+                        return None
+            return body[:-1], loop, last
+
+        def paste_gen(h: FunctionInfo, got, for_st: ast.For, f: FunctionInfo):
+            call = for_st.iter
+            fake = copy.copy(h)
+            # reuse paste(): bind parameters / rename locals on a body without the yield
+            pre, loop, ystmt = got
+            import types
+            shadow = ast.FunctionDef(name=h.node.name, args=h.node.args,
+                                     body=list(pre) + [loop], decorator_list=[], returns=None,
+                                     type_comment=None, type_params=[])
+            fake.node = shadow
+            res = paste(fake, call, f)
+            if res is None:
+                return None
+            out, _ = res
+            new_loop = out[-1]
+            if not isinstance(new_loop, ast.For) or not isinstance(new_loop.body[-1], ast.Expr) \
+                    or not isinstance(new_loop.body[-1].value, ast.Yield):
+                return None
+            yielded = new_loop.body[-1].value.value
+            bind = ast.Assign(targets=[copy.deepcopy(for_st.target)], value=yielded)
+            for t_ in ast.walk(bind.targets[0]):
+                if isinstance(t_, ast.Name):
+                    t_.ctx = ast.Store()
+            ast.copy_location(bind, for_st)
+            new_loop.body = new_loop.body[:-1] + [bind] + list(for_st.body)
+            ast.fix_missing_locations(new_loop)
+            return out
+
         def rewrite_block(stmts: list, f: FunctionInfo) -> bool:
             changed = False
             i_ = 0
             while i_ < len(stmts):
                 st = stmts[i_]
                 call = None
+                # [e for T in gen(...)] over a new generator helper: written as the loop it
+                # abbreviates, so that the generator can be pasted in (the evaluator turns
+                # the accumulator loop back into the comprehension)
+                val = getattr(st, "value", None) if isinstance(st, (ast.Assign, ast.Return)) else None
+                if isinstance(val, ast.ListComp) and len(val.generators) == 1 \
+                        and not val.generators[0].ifs and isinstance(val.generators[0].iter, ast.Call):
+                    hg0 = resolve(val.generators[0].iter, f)
+                    if hg0 is not None and hg0 is not f and gen_candidate(hg0) is not None:
+                        acc = f"_lsa_acc{st.lineno}"
+                        init = ast.Assign(targets=[ast.Name(id=acc, ctx=ast.Store())],
+                                          value=ast.List(elts=[], ctx=ast.Load()))
+                        app = ast.Expr(value=ast.Call(
+                            func=ast.Attribute(value=ast.Name(id=acc, ctx=ast.Load()),
+                                               attr="append", ctx=ast.Load()),
+                            args=[val.elt], keywords=[]))
+                        loop_ = ast.For(target=val.generators[0].target,
+                                        iter=val.generators[0].iter, body=[app], orelse=[])
+                        fin = copy.copy(st)
+                        fin.value = ast.Name(id=acc, ctx=ast.Load())
+                        for x_ in (init, loop_, fin):
+                            ast.copy_location(x_, st)
+                            ast.fix_missing_locations(x_)
+                        stmts[i_:i_ + 1] = [init, loop_, fin]
+                        changed = True
+                        continue
+                if isinstance(st, ast.For) and not st.orelse and isinstance(st.iter, ast.Call):
+                    hg = resolve(st.iter, f)
+                    got_g = gen_candidate(hg) if hg is not None and hg is not f else None
+                    if got_g is not None:
+                        rep = paste_gen(hg, got_g, st, f)
+                        if rep is not None:
+                            stmts[i_:i_ + 1] = rep
+                            self.inlined_helpers.append((f.qualname, hg.qualname))
+                            pasted[hg.qualname] = pasted.get(hg.qualname, 0) + 1
+                            if pasted[hg.qualname] >= uses.get(hg.name, 0):
+                                for k_ in [k_ for k_, v_ in self.functions.items() if v_ is hg]:
+                                    del self.functions[k_]
+                                if hg.cls is not None:
+                                    hg.cls.methods.pop(hg.name, None)
+                            changed = True
+                            i_ += len(rep)
+                            continue
                 if isinstance(st, ast.Expr) and isinstance(st.value, ast.Call):
                     call = st.value
                 elif isinstance(st, (ast.Assign, ast.Return, ast.AnnAssign)) and isinstance(
@@ -416,11 +517,16 @@ class Repo:
                             ast.fix_missing_locations(t_)
                         stmts[i_:i_ + 1] = body + tail
                         self.inlined_helpers.append((f.qualname, h.qualname))
-                        for k_ in [k_ for k_, v_ in self.functions.items() if v_ is h]:
-                            del self.functions[k_]
-                        if h.cls is not None:
-                            h.cls.methods.pop(h.name, None)
+                        pasted[h.qualname] = pasted.get(h.qualname, 0) + 1
+                        if pasted[h.qualname] >= uses.get(h.name, 0):
+                            # every use was a whole statement and has been pasted: the
+                            # helper itself is no longer a function of its own
+                            for k_ in [k_ for k_, v_ in self.functions.items() if v_ is h]:
+                                del self.functions[k_]
+                            if h.cls is not None:
+                                h.cls.methods.pop(h.name, None)
                         changed = True
+                        i_ += len(body) + len(tail)
                         continue
                 for fld in ("body", "orelse", "finalbody"):
                     sub_ = getattr(st, fld, None)
